@@ -119,6 +119,14 @@ func (e *bcEngine) Gen(rng *rand.Rand, tier string, n int, emit func(string)) {
 	// a very fast broker: the acknowledgement is processed before the request's Write returns
 	emit("conn ack:0:0 fast unsub:5 ua:5 fast pub:1:6 pa:6 fast sub:2:7 sa:7:0102 fast ping pg fast pub:2:8 pr:8 pc:8")
 	emit("conn ack:0:0 pub:1:3 fast unsub:4 ua:4 pa:3 fast pub:2:9 pr:9 fast ping pg pc:9")
+	// a PINGRESP that arrives after its Ping gave up must not answer the next Ping (C13: a silent peer stays detectable)
+	emit("conn ack:0:0 ping cancel:1 pg ping")
+	emit("conn ack:0:0 ping cancel:1 pg ping pg ping cancel:3 pg pg ping")
+	emit("conn ack:0:0 pub:1:2 ping cancel:2 pg pa:2 ping unsub:3 ua:3")
+	// … and answers another outstanding request in the same breath (two SUBACKs back to back while the second caller is still writing)
+	emit("conn ack:0:0 sub:1:5 fast2 sub:1:6 sa:6:80 sa:5:01")
+	emit("conn ack:0:0 sub:2:5 fast2 sub:1:6 sa:6:02 sa:5:0180 pub:1:7 fast2 unsub:8 ua:8 pa:7")
+	emit("conn ack:0:0 pub:2:3 pr:3 fast2 pub:1:4 pa:4 pc:3 sub:1:9 fast2 ping pg sa:9:00")
 	// inbound application messages: acknowledged by the reader itself; a failing acknowledgement write ends the connection with an error
 	emit("conn ack:0:0 in:0:0 in:1:5 in:2:6 in:2:6 rel:6 rel:6 rel:9 pub:1:5 pa:5")
 	emit("conn ack:0:0 pub:1:3 wf:1 in:1:5 pa:3")
@@ -265,7 +273,7 @@ func (e *bcEngine) Gen(rng *rand.Rand, tier string, n int, emit func(string)) {
 				ack = "pg"
 			}
 			if ack != "" && rng.Intn(6) == 0 {
-				evs2 = append(evs2, "fast", ev, ack)
+				evs2 = append(evs2, []string{"fast", "fast2"}[rng.Intn(2)], ev, ack)
 			} else {
 				evs2 = append(evs2, ev)
 			}
@@ -413,29 +421,58 @@ func (e *bcEngine) Exec(f []string) Result {
 		}()
 	}
 	inited := false
-	fastNext := false
-	fed := map[int]bool{} // acknowledgement events already delivered by a "fast" broker
+	fastNext := 0
+	fed := map[int]bool{}        // acknowledgement events already delivered by a "fast" broker
+	extraFed := map[int]string{} // fast2: the second acknowledgement event delivered during the request event i
 	for i, ev := range evs {
 		mu.Lock()
 		curEv = i
 		mu.Unlock()
-		if fastNext && inited && i+1 < len(evs) && (strings.HasPrefix(ev, "pub:") || strings.HasPrefix(ev, "sub:") || strings.HasPrefix(ev, "unsub:") || ev == "ping") {
+		if fastNext > 0 && inited && i+1 < len(evs) && (strings.HasPrefix(ev, "pub:") || strings.HasPrefix(ev, "sub:") || strings.HasPrefix(ev, "unsub:") || ev == "ping") {
 			// a very fast broker: the acknowledgement (the next event) has been read and processed by the client's
-			// reader goroutine before the request's Write returns to the calling goroutine
+			// reader goroutine before the request's Write returns to the calling goroutine; with fast2 the event after
+			// it (an acknowledgement for some other outstanding request) as well
 			if ack := bcAckBytes(evs[i+1]); ack != nil {
 				fed[i+1] = true
 				pendingFast = evs[i+1]
+				var ack2 []byte
+				evID := func(e string) string { // the packet identifier an event is about ("" for ping / pingresp)
+					t := strings.Split(e, ":")
+					switch t[0] {
+					case "pub", "sub":
+						if len(t) > 2 {
+							return t[2]
+						}
+					case "unsub", "pa", "pr", "pc", "sa", "ua":
+						if len(t) > 1 {
+							return t[1]
+						}
+					}
+					return ""
+				}
+				// the second packet must be about ANOTHER request (otherwise it would overtake the client's own reaction
+				// to the first one, e.g. PUBCOMP before PUBREL was sent: a different scenario from the scripted one)
+				if fastNext == 2 && i+2 < len(evs) && evID(evs[i+2]) != evID(ev) && evID(evs[i+2]) != "" {
+					if ack2 = bcAckBytes(evs[i+2]); ack2 != nil {
+						fed[i+2] = true
+						extraFed[i] = evs[i+2]
+					}
+				}
 				var once sync.Once
 				tr.mu.Lock()
 				tr.onWrite = func(p []byte) {
 					once.Do(func() {
 						tr.feed(ack)
 						tr.waitDrained()
+						if ack2 != nil {
+							tr.feed(ack2)
+							tr.waitDrained()
+						}
 					})
 				}
 				tr.mu.Unlock()
 			}
-			fastNext = false
+			fastNext = 0
 		}
 		before := map[int]bool{}
 		mu.Lock()
@@ -451,7 +488,9 @@ func (e *bcEngine) Exec(f []string) Result {
 		}
 		switch t[0] {
 		case "fast":
-			fastNext = true
+			fastNext = 1
+		case "fast2":
+			fastNext = 2
 		case "conn":
 			start("conn", 0, 0)
 			if !inited {
@@ -626,9 +665,6 @@ func (e *bcEngine) Exec(f []string) Result {
 			continue
 		}
 		ev := evs[cl.retEv]
-		if cl.fastAck != "" && cl.retEv == cl.startEv {
-			ev = cl.fastAck // answered by a fast broker while the call was being made
-		}
 		want := ""
 		switch cl.kind {
 		case "conn":
@@ -646,7 +682,29 @@ func (e *bcEngine) Exec(f []string) Result {
 		case "disc":
 			want = "disc"
 		}
-		if !(ev == want || (strings.HasSuffix(want, ":") && strings.HasPrefix(ev, want))) {
+		matches := func(e string) bool { return e == want || (strings.HasSuffix(want, ":") && strings.HasPrefix(e, want)) }
+		// acknowledgements a fast broker delivered while a request was being written (during event k) count for returns
+		// observed during events k, k+1 (the fed acknowledgement's own slot) and k+2 (fast2's second slot)
+		cands := []string{}
+		if cl.fastAck != "" && cl.retEv <= cl.startEv+2 {
+			cands = append(cands, cl.fastAck)
+		}
+		for k := cl.retEv; k >= 0 && k >= cl.retEv-2; k-- {
+			if x, ok := extraFed[k]; ok {
+				cands = append(cands, x)
+			}
+		}
+		for _, x := range cands {
+			if !matches(ev) && matches(x) {
+				ev = x
+			}
+		}
+		if !matches(ev) && cl.kind == "ping" {
+			// C13: a Ping that succeeds without a PINGRESP of its own (e.g. on a response left over from an earlier Ping that
+			// gave up) hides a silent peer from the keep-alive for a whole interval
+			props = append(props, viol("C13", "ping-answered-without-pingresp", "Ping (call %d) returned success during event %q: no PINGRESP arrived after its PINGREQ", j, ev))
+		}
+		if !matches(ev) {
 			props = append(props, viol("C07", "completed-without-own-ack", "call %d (%s id %d) returned success during event %q, its own acknowledgement is %q", j, cl.kind, cl.id, ev, want))
 		}
 		if cl.kind == "pub2" {
